@@ -10,6 +10,7 @@ import (
 	"github.com/llir/llvm/ir"
 	"github.com/llir/llvm/ir/constant"
 	"github.com/llir/llvm/ir/types"
+	"github.com/llir/llvm/verifhook"
 	"github.com/pkg/errors"
 )
 
@@ -28,6 +29,7 @@ func (gen *generator) createGlobalEntities() error {
 	//      and indirect functions), and function declarations and definitions
 	//      (without bodies but with types).
 	for ident, old := range gen.old.globals {
+		verifhook.Visit("createGlobalEntities", ident)
 		new, err := gen.newGlobalEntity(ident, old)
 		if err != nil {
 			return errors.WithStack(err)
@@ -198,6 +200,7 @@ func (gen *generator) translateGlobalEntities() error {
 	// 4b1. Translate AST global declarations and definitions, indirect symbol
 	//      definitions, and function declarations and definitions to IR.
 	for ident, old := range gen.old.globals {
+		verifhook.Visit("translateGlobalEntities", ident)
 		v, ok := gen.new.globals[ident]
 		if !ok {
 			panic(fmt.Errorf("unable to locate global identifier %q", ident.Ident()))
